@@ -1,6 +1,8 @@
 package keeper
 
 import (
+	"bytes"
+
 	"github.com/KiraCore/sekai/x/recovery/types"
 	"github.com/cosmos/cosmos-sdk/store/prefix"
 	sdk "github.com/cosmos/cosmos-sdk/types"
@@ -35,6 +37,12 @@ func (k Keeper) GetRRTokenHolders(ctx sdk.Context, rrToken string) []sdk.AccAddr
 
 	delegators := []sdk.AccAddress{}
 	for ; iterator.Valid(); iterator.Next() {
+		// the index key is prefix | denom | holder WITHOUT a separator: iterating "rr/node1" also meets the
+		// entries of "rr/node10" (key rest "0" | holder). Only entries whose key rest is the holder itself
+		// belong to this denom; a holder listed twice would be credited twice (and overdraw the reward)
+		if !bytes.Equal(iterator.Key(), iterator.Value()) {
+			continue
+		}
 		delegators = append(delegators, sdk.AccAddress(iterator.Value()))
 	}
 	return delegators
